@@ -382,6 +382,9 @@ func Run(p *Prop, opts Opts) (*Result, error) {
 		_ = os.WriteFile(name, b, 0o644)
 	}
 
+	// at most five reported monitor failures and five reported disagreements (counted apart, so that
+	// early disagreements cannot use up the budget before a failing input of the property shows up)
+	nMon, nDis := 0, 0
 	for _, oc := range outs {
 		res.Evaluations++
 		res.Lines += len(oc.c.Script)
@@ -414,7 +417,8 @@ func Run(p *Prop, opts Opts) (*Result, error) {
 				unknownMon = m
 			}
 		}
-		if unknownMon != "" && len(res.Violations) < 5 {
+		if unknownMon != "" && nMon < 5 {
+			nMon++
 			min := shrink(p, oc.c, func(c Case) bool {
 				o2 := runCase(p, nil, c)
 				for _, m := range o2.mon {
@@ -438,7 +442,8 @@ func Run(p *Prop, opts Opts) (*Result, error) {
 			continue
 		}
 		// 2. correspondence break: search for a failing input around it
-		if oc.disLine >= 0 && len(res.Violations) < 5 {
+		if oc.disLine >= 0 && nDis < 5 {
+			nDis++
 			min := shrink(p, oc.c, func(c Case) bool { return runCase(p, so, c).disLine >= 0 })
 			o2 := runCase(p, so, min)
 			note := ""
